@@ -29,7 +29,7 @@ FAILS = ['none', 'none', 'none', 'missing_query', 'missing_stats', 'missing_mark
 
 
 def budget(tier):
-    return {'quick': 160, 'thorough': 3000}[tier]
+    return {'quick': 400, 'thorough': 4000}[tier]
 
 
 @st.composite
